@@ -18,12 +18,21 @@ package sunlight
 // ---- C11: the note verifier's accept decision, as a function of (msg, sig) only
 //@ pure func rfcSigAccepted(name string, key Ref, msg bytes, sig bytes) bool = ckptParses(string(msg)) && ckptOf(string(msg)).Origin == name && ckptOf(string(msg)).Extension == "" && len(sig) >= 12 && sig[8] == 4 && len(sig) == 12 + be16(sig[10:12]) && ctAccepts(key, sthInput(0, ckptOf(string(msg)).N, be64(sig), ckptOf(string(msg)).Hash), sig[8], sig[9], sig[12:])
 //@ func sunlight.NewRFC6962Verifier$1 nopanic props C11
-//@   returns [C11] accepts-only-what-the-independent-verifier-accepts: ret ==> rfcSigAccepted(name, key, msg, sig)
-//@   returns [C11] accepts-every-well-formed-verifying-signature: rfcSigAccepted(name, key, msg, sig) ==> ret
+//@   returns [C11] accepts-only-what-the-independent-verifier-accepts: ret ==> rfcSigAccepted(name, key__1, msg, sig)
+//@   returns [C11] accepts-every-well-formed-verifying-signature: rfcSigAccepted(name, key__1, msg, sig) ==> ret
 
 //@ pure func sigTimestamp(sig note.Signature) int
-//@ func sunlight.RFC6962SignatureTimestamp props C11 C20
+//@ func sunlight.RFC6962SignatureTimestamp nopanic props C11 C20
 //@   defines ret1 == nil ==> ret0 == sigTimestamp(sig)
+//@   returns [C11] timestamp-is-the-eight-bytes-after-the-key-hash: ret1 == nil ==> (len(b64dec(sig.Base64)) >= 12 && ret0 == be64(b64dec(sig.Base64)[4:12]) && ret0 >= 0)
+
+//@ func sunlight.NewRFC6962InjectedSigner props C11
+//@   returns [C11] signature-embeds-the-timestamp: (ret1 == nil && timestamp >= 0) ==> (typeof(ret0) == typeid("*sunlight.injectedSigner") && cast(ret0, "*sunlight.injectedSigner").sig == u64(timestamp) + sig)
+//@   returns [C11] verifier-is-the-logs-own: ret1 == nil ==> isRFCVerifier(cast(ret0, "*sunlight.injectedSigner").v, name, key)
+
+//@ func sunlight.(*injectedSigner).Sign nopanic props C11
+//@   requires s != nil
+//@   returns [C11] refuses-signatures-that-do-not-verify: ret1 == nil ==> (verifierAccepts(s.v, msg, s.sig) && ret0 == s.sig)
 
 //@ func sunlight.ReadTileLeaf nopanic props C08 C10 C12
 //@   defines ret2 == nil ==> ret0 != nil && *ret0 == parsedLeaf(tile) && ret1 == leafRest(tile)
